@@ -92,6 +92,9 @@ def make_target_err(fracs, bg):
     return TargetErr()
 
 
+_CALLER_BOUNDS = {}     # id(solver) -> the caller's own bound arrays passed to the constructors
+
+
 def build(case):
     from sparseSpACE.GridOperation import Integration
     dim = case["dim"]
@@ -127,7 +130,15 @@ def build(case):
         from sparseSpACE.ErrorCalculator import ErrorCalculatorExtendSplit
         grid = TrapezoidalGrid(a, b, boundary=True)
         op = Integration(f, grid=grid, dim=dim, reference_solution=ref, print_level=drive.Q, log_level=drive.Q)
-        sa = SpatiallyAdaptiveExtendScheme(a, b, number_of_refinements_before_extend=case["nref"], version=case["version"], operation=op)
+        sa = SpatiallyAdaptiveExtendScheme(a, b, number_of_refinements_before_extend=case["nref"], version=case["version"], operation=op,
+                                           automatic_extend_split=bool(case.get("auto", False)))
+        if case.get("reuse_bounds"):
+            # the strategy object gets its own arrays (the grid keeps the first pair): the caller may re-use THESE afterwards
+            a2, b2 = np.array(a), np.array(b)
+            sa = SpatiallyAdaptiveExtendScheme(a2, b2, number_of_refinements_before_extend=case["nref"], version=case["version"],
+                                               operation=op, automatic_extend_split=bool(case.get("auto", False)))
+            _CALLER_BOUNDS.clear()
+            _CALLER_BOUNDS[id(sa)] = (a2, b2)
         sa.log_util.set_print_level(drive.Q)
         sa.log_util.set_log_level(drive.Q)
         err = ErrorCalculatorExtendSplit()
@@ -216,6 +227,12 @@ def run(case):
         else:
             leg = "max"
             sa2, r1 = first_run(case, K1)
+        if kind == "es" and case.get("reuse_bounds") and id(sa2) in _CALLER_BOUNDS:
+            # after the stop the caller re-uses its own bound arrays for its next problem
+            ca, cb = _CALLER_BOUNDS[id(sa2)]
+            ca[:] = -1.0
+            cb[:] = 3.0
+            out.cls("caller-reused-its-bound-arrays-after-the-stop")
         n_at_stop = int(r1[6][-1])
         extra = None
         if kind == "es":
@@ -281,6 +298,8 @@ def run(case):
             out.cls("mode=" + mode, "leg=" + leg, "final-tol=%s" % ("none" if tol_final == -1 else "observed-error"))
     out.nontrivial = nt >= 1
     out.cls("integrand-scale=%g" % case.get("fscale", 1.0))
+    if kind == "es":
+        out.cls("automatic_extend_split=%s" % bool(case.get("auto", False)))
     out.cls("kind=" + kind, "version=%d" % case["version"], "function=" + case["function"], "estimator=" + case.get("estimator", "library"))
     out.info = dict(max_history_len=len(N), max_interruptions=len(ks), max_points=N[-1])
     return out
@@ -313,7 +332,7 @@ def _strategy(kind):
                 c["lmax"] = c["lmin"]
             else:
                 c.update(lmin=1, lmax=2, version=draw(st.sampled_from([0, 0, 1, 2])), nref=draw(st.integers(0, 2)),
-                         maxev=draw(st.integers(60, 900)))
+                         maxev=draw(st.integers(60, 900)), auto=draw(st.booleans()), reuse_bounds=draw(st.booleans()))
             return c
         return s()
     return strat
